@@ -94,7 +94,11 @@ def handle : Handler := fun j => do
       | .ok .badSyntax => Json.mkObj [("err", "BadExpr")]
       | .ok .nothing => Json.arr #[Json.null, Json.null]
       | .ok (.found byExpr i v) => Json.arr #[ref i v, Json.str (if byExpr then "versionExpr" else "explicit")]
-    pure (Json.mkObj [("products", products), ("find", find), ("entry", entry)])
+    -- `eups admin listCache -v`: the versions of every stack sorted by the comparator
+    let sorted : Json := Json.arr ((versOf stacks).map fun vs => match lexPairs vs with
+      | .error er => Json.mkObj [("err", er.name)]
+      | .ok ps => ofStrs ((sortVers ps).map (·.1))).toArray
+    pure (Json.mkObj [("products", products), ("find", find), ("entry", entry), ("sorted", sorted)])
   | "repos" =>
     let repos ← (← jarr j "repos").mapM fun st => do
       (← st.getArr?).toList.mapM fun v => do pure (Str.ofString (← v.getStr?))
